@@ -219,12 +219,64 @@ func (w *World) parseClause(ct *Contract, cl *Clause) error {
 		return fmt.Errorf("%s:%d: function %s has no syntax to type-check the clause in", cl.File, cl.Line, fn)
 	}
 	info := &types.Info{Types: map[ast.Expr]types.TypeAndValue{}, Uses: map[*ast.Ident]types.Object{}, Selections: map[*ast.SelectorExpr]*types.Selection{}, Instances: map[*ast.Ident]types.Instance{}}
-	if err := types.CheckExpr(w.Fset, fn.Pkg.Pkg, pos, x, info); err != nil {
+	err = types.CheckExpr(w.Fset, fn.Pkg.Pkg, pos, x, info)
+	if err != nil && cl.Kind == "at" && strings.Contains(err.Error(), "undefined:") {
+		// an at-call clause may name variables of an inner block: type-check it where the call is
+		for _, p2 := range atCallPositions(fn.Syntax(), cl.Callee) {
+			info = &types.Info{Types: map[ast.Expr]types.TypeAndValue{}, Uses: map[*ast.Ident]types.Object{}, Selections: map[*ast.SelectorExpr]*types.Selection{}, Instances: map[*ast.Ident]types.Instance{}}
+			if err2 := types.CheckExpr(w.Fset, fn.Pkg.Pkg, p2, x, info); err2 == nil {
+				err = nil
+				break
+			}
+		}
+	}
+	if err != nil {
 		return fmt.Errorf("%s:%d: contract clause does not type-check against %s: %v\n    %s", cl.File, cl.Line, fn, err, text)
 	}
 	cl.Expr = x
 	cl.Info = info
 	return nil
+}
+
+// atCallPositions: source positions (last first) of the calls an at-clause's callee pattern can
+// refer to: calls of a function or method with that name, or map assignments for "mapupdate".
+func atCallPositions(root ast.Node, callee string) []token.Pos {
+	name := callee
+	if k := strings.LastIndexAny(name, ".)"); k >= 0 {
+		name = name[k+1:]
+	}
+	var out []token.Pos
+	if root == nil {
+		return nil
+	}
+	ast.Inspect(root, func(x ast.Node) bool {
+		switch y := x.(type) {
+		case *ast.AssignStmt:
+			if callee == "mapupdate" {
+				for _, l := range y.Lhs {
+					if _, ok := l.(*ast.IndexExpr); ok {
+						out = append(out, y.End())
+					}
+				}
+			}
+		case *ast.CallExpr:
+			switch f := y.Fun.(type) {
+			case *ast.Ident:
+				if f.Name == name {
+					out = append(out, y.End())
+				}
+			case *ast.SelectorExpr:
+				if f.Sel.Name == name {
+					out = append(out, y.End())
+				}
+			}
+		}
+		return true
+	})
+	for i, j := 0, len(out)-1; i < j; i, j = i+1, j-1 {
+		out[i], out[j] = out[j], out[i]
+	}
+	return out
 }
 
 func astLoops(n ast.Node) []ast.Node {
